@@ -583,6 +583,10 @@ def _st_bases():
          ["N1", "M", "N0"], {"M": 2, "N": 3}),
         ("conv", {"F": ["S"], "I": ["W"], "O": ["Q"]}, ["O[q] = I[q + s] * F[s]"], {}, ["Q", "S"], {"Q": 3, "S": 2, "W": 4}),
         ("conv-w", {"F": ["S"], "I": ["W"], "O": ["Q"]}, ["O[q] = I[q + s] * F[s]"], {}, ["W", "Q"], {"Q": 3, "S": 2, "W": 4}),
+        ("conv-part", {"F": ["S"], "I": ["W"], "O": ["Q"]}, ["O[q] = I[q + s] * F[s]"],
+         {"O": {"Q": ["uniform_shape(2)"], "W": ["follow(Q)"]}}, ["Q1", "S", "Q0"], {"Q": 4, "S": 2, "W": 5}),
+        ("conv-part-w", {"F": ["S"], "I": ["W"], "O": ["Q"]}, ["O[q] = I[q + s] * F[s]"],
+         {"O": {"Q": ["uniform_shape(2)"], "W": ["follow(Q)"]}}, ["Q1", "W0", "Q0"], {"Q": 4, "S": 2, "W": 5}),
         ("sum2", {"A": ["K", "M"], "B": ["K", "M"], "Z": ["M"]}, ["Z[m] = A[k, m] + B[k, m]"], {}, ["M", "K"], {"K": 2, "M": 2}),
         ("dot", {"A": ["K"], "B": ["K"], "Z": []}, ["Z[] = A[k] * B[k]"], {}, ["K"], {"K": 3}),
     ]
